@@ -6,10 +6,18 @@ Kinds of cases:
   emacs  a real PromptSession in Emacs mode; every op is a key chord (with an optional readline
          numeric argument typed through its own keys) fed into the real KeyProcessor; after every
          op the model must predict text, cursor, the whole kill ring and document_before_paste.
-  vi     the same in Vi mode (x X s D C dd yy cc p P "xp "xP, visual y/d/x/"xy/"xd with the three
+         Ops: kl ld kw kwc(c-delete) wr bk y yp f b ins goto reg (C-@ .. C-w / M-w), regt (a selection of any
+         SelectionType started through Buffer.start_selection, then C-w / M-w), shift (s-left / s-right
+         presses, then C-w / M-w / backspace / C-y / a character).
+  vi     the same in Vi mode (x X s D C dd yy Y cc S p P "xp "xP, visual y/d/x/"xy/"xd with the three
          selection types); the model predicts text, cursor, ring and named registers.
   paste  Document.paste_clipboard_data called directly (all data types, paste modes, counts).
+  cut    Document.cut_selection called directly (all selection types, both editing modes), followed by
+         paste_clipboard_data(VI_BEFORE) of the cut data at the cursor it left.
   ring   InMemoryClipboard driven through set_data / rotate / get_data.
+  pyclip the real PyperclipClipboard on top of a one-string stand-in for the pyperclip module
+         (set_data / get_data / rotate, and other programs overwriting the system clipboard).
+  dyn    DynamicClipboard switching between InMemoryClipboards and None (DummyClipboard).
 """
 from __future__ import annotations
 
@@ -24,66 +32,136 @@ from core import enc_str
 from prompt_toolkit.clipboard import ClipboardData, InMemoryClipboard
 from prompt_toolkit.document import Document
 from prompt_toolkit.enums import EditingMode
-from prompt_toolkit.selection import PasteMode, SelectionType
+from prompt_toolkit.selection import PasteMode, SelectionState, SelectionType
+
+
+class _SystemClipboard:
+    """the system clipboard as one string cell: stands in for the `pyperclip` module (not installed
+    here; clipboard/pyperclip.py only calls `pyperclip.copy(text)` and `pyperclip.paste()`)"""
+
+    def __init__(self):
+        self.cell = ""
+
+    def copy(self, text):
+        self.cell = text
+
+    def paste(self):
+        return self.cell
+
+
+def pyperclip_clipboard(cell: _SystemClipboard):
+    """a real PyperclipClipboard whose `pyperclip` module is the given cell"""
+    import importlib
+    import types
+    fake = types.ModuleType("pyperclip")
+    fake.copy = cell.copy
+    fake.paste = cell.paste
+    old = sys.modules.get("pyperclip")
+    sys.modules["pyperclip"] = fake
+    try:
+        mod = importlib.import_module("prompt_toolkit.clipboard.pyperclip")
+        mod = importlib.reload(mod)
+    finally:
+        if old is None:
+            sys.modules.pop("pyperclip", None)
+        else:
+            sys.modules["pyperclip"] = old
+    return mod.PyperclipClipboard()
 
 ID = "C09"
 DRIVER = "drv_c09"
-PROPS = ["Ptk.Props.C09", "Ptk.Props.C09Vi"]
+PROPS = ["Ptk.Props.C09", "Ptk.Props.C09Vi", "Ptk.Props.C09Cut", "Ptk.Props.C09Paste", "Ptk.Props.C09Ring",
+         "Ptk.Props.C09Ext"]
 TECHNIQUE = "Lean 4 proof over an executable model + differential correspondence + property oracle"
 LEVEL_TEXT = ("Lean 4 theorems over an executable model of the kill ring (InMemoryClipboard), Buffer.delete / "
               "delete_before_cursor, the Emacs kill / yank / yank-pop / region commands with event.arg and "
-              "event.is_repeat, Document.paste_clipboard_data (CHARACTERS / LINES / BLOCK x 3 paste modes x count), "
-              "Document.cut_selection and the Vi register commands (x X s D C dd yy p P \"rp, visual x/y/d with named "
-              "registers): every kill puts exactly the removed characters on the ring and the removed text put back at "
-              "the kill point is the old text, consecutive word kills accumulate in text order (forward appends, backward "
-              "prepends, for runs of any length), yank right after kill restores the text, the column-0 "
-              "unix-line-discard exception, rotate is a permutation with rotate^len = id, set_data loses nothing "
-              "below max_size, yank-pop = yank of the next ring entry at the original spot and a full cycle closes, "
-              "paste inserts the data count times unchanged; the model is tied to /repo on every run by a "
-              "differential correspondence through the real KeyProcessor (Emacs and Vi mode) and the real "
-              "Document / clipboard API, and by a property oracle on the real objects")
+              "event.is_repeat (incl. c-delete, C-w / M-w on CHARACTERS / LINES / BLOCK selections, shift selection), "
+              "Document.paste_clipboard_data (3 data types x 3 paste modes x count), Document.selection_ranges / "
+              "cut_selection (3 selection types, Vi and Emacs mode), the Vi register commands (x X s D C cc S dd yy Y "
+              "p P \"rp, visual x/y/d with named registers), PyperclipClipboard over an abstract system-clipboard cell "
+              "and DynamicClipboard: every kill puts exactly the removed characters on the ring and the removed text put "
+              "back at the kill point is the old text; consecutive word kills accumulate in text order (runs of any "
+              "length; per key: M-d and c-delete are different keys), kill-line / unix-line-discard never accumulate "
+              "(n presses = n entries); yank right after kill restores the text; the column-0 unix-line-discard "
+              "exception; the ring is a bounded LIFO of exactly the last max_size entries, rotate is a permutation with "
+              "rotate^len = id; yank n repeats the top entry n times, yank-pop = yank of the next entry at the original "
+              "spot, a full cycle closes, and it does nothing unless it follows a yank; a BLOCK cut removes exactly the "
+              "cells of the block (lines shorter than the left column have none), a LINES cut whole lines; pasting the "
+              "cut data back at the cut point restores the text (BLOCK: when every line of the block reaches the left "
+              "column; LINES: exactly when a newline terminates the last selected line, otherwise text + one newline); "
+              "paste inserts the data count times unchanged (BLOCK: padding with spaces exactly for lines shorter than "
+              "the paste column) and neither paste nor cut can raise; what survives the system clipboard round trip; "
+              "the invariant of every history of the extended Emacs model.  The model is tied to /repo on every run "
+              "by generated pins (word regexes, register names, the command behind every key the harness types), by a "
+              "differential correspondence through the real KeyProcessor (Emacs and Vi mode) and the real Document / "
+              "clipboard API, and by a property oracle on the real objects")
 LEVEL_NOTE = ("trusted: Lean kernel, axioms propext/Classical.choice/Quot.sound only; the hand-written model "
               "(validated by the correspondence, not proved equal to the Python); CPython str / deque semantics; "
-              "regex \\s is a parameter of the theorems (table regenerated from the interpreter for the driver)")
+              "regex \\s and str.isspace are parameters of the theorems (tables regenerated from the interpreter for "
+              "the driver); the `pyperclip` module is replaced by a one-string cell (the real PyperclipClipboard class "
+              "runs on top of it)")
 RULE = ("emacs: for every text over {a, space, newline, .} up to the tier's length and every cursor, from a fresh "
-        "editor with a preloaded ring: every kill command x every argument class (none, M--, negative, 0, positive, "
-        "oversized, >= 10^6) followed by yank and yank-pop, every pair of kill commands, triple word kills, kills "
-        "after a failing kill, yank with arguments + yank-pop cycles, every region (mark, point) kill/copy; then "
-        "seeded random sessions (<= 13 chords incl. cursor moves, self-insert, goto, regions, ring bound 1..60, "
-        "unicode); vi: for every text over {a, space, newline}: x X s dd yy with counts, D C, p P with counts, "
+        "editor with a preloaded ring: every kill command (incl. c-delete) x every argument class (none, M--, negative, "
+        "0, positive, oversized, >= 10^6) followed by yank and yank-pop, every pair of kill commands, triple word kills "
+        "and triple line kills, M-d / c-delete mixes, kills after a failing kill, yank with arguments + yank-pop "
+        "cycles, yank-pop not after a yank, every region (mark, point) kill/copy for the three selection types, every "
+        "shift selection (anchor, 1-3 presses left / right) followed by C-w / M-w / backspace / C-y / a character; "
+        "then seeded random sessions (<= 13 chords incl. cursor moves, self-insert, goto, regions, ring bound 1..60, "
+        "unicode); vi: for every text over {a, space, newline}: x X s dd yy with counts, D C cc S Y, p P with counts, "
         "every visual selection (v / V / C-v, every anchor and cursor) followed by x / d / y / \"ay / \"qd and "
-        "pastes; then seeded random sessions incl. valid and invalid register names; paste: every text, cursor, "
-        "data type, data string, paste mode and count in a small scope + random; ring: random set_data / rotate "
-        "sequences; a case is non-trivial when its text is non-empty or it has at least 3 ops")
+        "pastes; then seeded random sessions incl. valid and invalid register names; cut: Document.cut_selection "
+        "for every text over {a, b, newline} x cursor x anchor x 3 selection types x 2 editing modes, followed by "
+        "paste_clipboard_data(VI_BEFORE) at the cut cursor, + random texts; paste: every text, cursor, data type, data "
+        "string, paste mode and count in a small scope + random; ring / pyclip / dyn: exhaustive small op "
+        "sequences + random set_data / rotate / external-copy / switch sequences; a case is non-trivial when its "
+        "text is non-empty or it has at least 3 ops")
 EXHAUSTIVE = True
 EXHAUSTIVE_SCOPE = {
-    "quick": "emacs: alphabet {a,space,\\n,.} len<=2 and {a,space,\\n} len 3, all cursors, ~90 key sequences each; "
-             "vi: alphabet {a,space,\\n} len<=3, all cursors, ~100 sequences each (visual: all anchors x cursors, "
-             "3 selection types); paste: alphabet {a,space,\\n} len<=3 x all cursors x 3 types x 6 data x 3 modes x "
-             "counts -1..2",
-    "thorough": "emacs: alphabet {a,space,\\n,.} len<=4, all cursors, ~130 key sequences each; vi: alphabet "
-                "{a,space,\\n} len<=4, all cursors, all visual selections x 5 follow-ups; paste: len<=4 x 8 data x "
-                "counts -1..3"}
+    "quick": "emacs: alphabet {a,space,\\n,.} len<=2 and {a,space,\\n} len 3, all cursors, 106-218 key sequences each; "
+             "vi: alphabet {a,space,\\n} len<=3, all cursors, 55-136 sequences each (visual: all anchors x cursors, "
+             "3 selection types); cut: alphabet {a,b,\\n} len<=4 x all cursors x all anchors x 3 types x 2 modes; "
+             "paste: alphabet {a,space,\\n} len<=3 x all cursors x 3 types x 6 data x 3 modes x counts -1..2; "
+             "pyclip: 3 types x 6 texts x 6 external texts",
+    "thorough": "emacs: alphabet {a,space,\\n,.} len<=4, all cursors, ~300 key sequences each; vi: alphabet "
+                "{a,space,\\n} len<=4, all cursors, all visual selections x 5 follow-ups; cut: len<=5; paste: len<=4 x "
+                "8 data x counts -1..3"}
 TRUSTED = ["harness/c09.py drives one real PromptSession per worker through app.key_processor (keys parsed by the real "
            "Vt100Parser) and compares text, cursor, the whole kill ring, document_before_paste / named registers "
-           "after every op; cursor jumps ('goto', region and visual anchors) are made through Buffer.cursor_position",
+           "after every op; cursor jumps ('goto', region / visual / shift-selection anchors) are made through "
+           "Buffer.cursor_position, typed regions start through Buffer.start_selection",
            "the clipboard is an InMemoryClipboard subclass that only counts set_data calls",
-           "Ptk/Model/C09.lean, C09Vi.lean are hand translations of the anchored code (correspondence-checked)",
-           "harness/gen_c09.py re-extracts the two word regex patterns (pinned in the model), the default max_size "
-           "and vi_register_names from the current tree"]
-ASSUMPTIONS = ["CPython str slicing / deque semantics", "regex \\s table regenerated from the running interpreter",
+           "the pyperclip module is a stand-in with one string cell (copy / paste); PyperclipClipboard itself is the "
+           "real class, re-imported on top of it",
+           "Ptk/Model/C09.lean, C09Vi.lean, C09Ext.lean are hand translations of the anchored code "
+           "(correspondence-checked)",
+           "harness/gen_c09.py re-extracts the two word regex patterns, the default max_size, vi_register_names and "
+           "the command / handler bound to every key the harness types (all pinned in the model files), and probes "
+           "two behaviours for which repairs are pending (kill-word with a negative argument, delete with an "
+           "unknown register name)"]
+ASSUMPTIONS = ["CPython str slicing / deque semantics", "regex \\s and str.isspace tables regenerated from the running "
+               "interpreter",
                "one focused buffer, not read-only, no completion menu / search / macro recording active",
-               "the kill ring holds CHARACTERS entries in Emacs sessions (LINES / BLOCK entries come from Vi mode and "
-               "are pasted through the same Document.paste_clipboard_data, checked directly)"]
+               "the system clipboard is a single string cell that other programs may overwrite between any two calls"]
 PARTIAL_SCOPE = ["Vi operators with motions (dw, yw, \"ayw ...) are property C08; here registers are filled through "
-                 "x X s D C dd yy and visual selections (INCLUSIVE / LINEWISE / BLOCK text objects)",
-                 "cc / S, yank-nth-arg / yank-last-arg, shift-selection mode, c-delete, the system (pyperclip) "
-                 "clipboard and macro registers are not modelled",
-                 "theorems about LINES / BLOCK selections (cut_selection) are stated for the CHARACTERS case and for "
-                 "dd / yy; LINES / BLOCK cuts are covered by the correspondence and the oracle only",
-                 "observed, not part of C09: kill-word with a negative argument kills text_after_cursor[:-k] forward "
-                 "(Buffer.delete with a negative count); visual BLOCK + operator (d / y) acts on a block one column "
-                 "narrower than C-v ... x"]
+                 "x X s D C cc S dd yy Y and visual selections (INCLUSIVE / LINEWISE / BLOCK text objects)",
+                 "yank-nth-arg / yank-last-arg (history words, not the kill ring), macro registers (q / @) and the "
+                 "real system clipboard behind pyperclip are not modelled; shift selection is modelled for runs of "
+                 "s-left / s-right in one direction followed by one action (s-up / s-down / s-home / c-s-* and mixed "
+                 "directions: not modelled)",
+                 "paste-back theorems for a BLOCK cut assume that every line of the block reaches its left column "
+                 "(otherwise cells of lower lines move up: counter-example proved in Lean and replayed); blocks with "
+                 "shorter lines are covered by cutSelection_block (what is cut), the correspondence and the oracle",
+                 "observed, not part of C09 (modelled as they are): kill-word with a negative argument kills "
+                 "text_after_cursor[:-k] forward (repair proposed by C01; the model follows the probe "
+                 "Gen.C09.killWordNegFixed, so the check is green before and after it lands); cc / S store the whole line but delete only after the indentation and "
+                 "ignore the count; a cut of a BLOCK that starts in an empty FIRST line of the text leaves the cursor on "
+                 "the second row (`last_to == 0` is mistaken for 'first range'): C-v j x P on '\\nab' gives '\\nb\\na'; "
+                 "a delete operator with an invalid register name (\"Ad) deletes the text and stores it nowhere (repair "
+                 "proposed by C08; probe Gen.C09.unknownRegDeleteFixed); "
+                 "a LINES selection cut in EMACS mode (Buffer.start_selection(LINES), API only) excludes the upper bound: "
+                 "it leaves the last character of a selection that reaches the end of the text and can duplicate a "
+                 "character when the selection is on an empty last line; M-d followed by c-delete does not accumulate "
+                 "(different Binding objects)"]
 
 ANCHORS = ["src/prompt_toolkit/key_binding/bindings/named_commands.py",
            "src/prompt_toolkit/key_binding/bindings/emacs.py",
@@ -92,6 +170,47 @@ ANCHORS = ["src/prompt_toolkit/key_binding/bindings/named_commands.py",
            "src/prompt_toolkit/clipboard/base.py",
            "src/prompt_toolkit/buffer.py",
            "src/prompt_toolkit/document.py"]
+
+# functions of /repo whose bodies the Lean model follows line by line AND that the correspondence exercises
+MODELLED = {
+    "src/prompt_toolkit/clipboard/in_memory.py": [
+        "InMemoryClipboard.set_data", "InMemoryClipboard.get_data", "InMemoryClipboard.rotate"],
+    "src/prompt_toolkit/clipboard/base.py": [
+        "Clipboard.set_text", "Clipboard.rotate", "DummyClipboard.set_data", "DummyClipboard.set_text",
+        "DummyClipboard.rotate", "DummyClipboard.get_data", "DynamicClipboard._clipboard",
+        "DynamicClipboard.set_data", "DynamicClipboard.set_text", "DynamicClipboard.rotate",
+        "DynamicClipboard.get_data"],
+    "src/prompt_toolkit/clipboard/pyperclip.py": [
+        "PyperclipClipboard.__init__", "PyperclipClipboard.set_data", "PyperclipClipboard.get_data"],
+    "src/prompt_toolkit/document.py": [
+        "Document.selection_ranges", "Document.cut_selection", "Document.paste_clipboard_data",
+        "Document.find_next_word_ending", "Document.find_previous_word_ending",
+        "Document.find_start_of_previous_word", "Document.get_start_of_line_position",
+        "Document.get_end_of_line_position", "Document.get_cursor_left_position",
+        "Document.get_cursor_right_position"],
+    "src/prompt_toolkit/buffer.py": [
+        "Buffer.delete", "Buffer.delete_before_cursor", "Buffer.copy_selection", "Buffer.cut_selection",
+        "Buffer.paste_clipboard_data"],
+    "src/prompt_toolkit/key_binding/bindings/named_commands.py": [
+        "kill_line", "kill_word", "unix_word_rubout", "backward_kill_word", "unix_line_discard", "yank", "yank_pop",
+        "forward_char", "backward_char"],
+    "src/prompt_toolkit/key_binding/bindings/emacs.py": [
+        "load_emacs_bindings._start_selection", "load_emacs_bindings._cut", "load_emacs_bindings._copy",
+        "load_emacs_shift_selection_bindings.unshift_move", "load_emacs_shift_selection_bindings._start_selection",
+        "load_emacs_shift_selection_bindings._extend_selection",
+        "load_emacs_shift_selection_bindings._replace_selection", "load_emacs_shift_selection_bindings._delete",
+        "load_emacs_shift_selection_bindings._yank"],
+    "src/prompt_toolkit/key_binding/bindings/vi.py": [
+        "TextObject.operator_range", "TextObject.cut", "load_vi_bindings._delete", "load_vi_bindings._delete_before_cursor",
+        "load_vi_bindings._substitute", "load_vi_bindings._delete_until_end_of_line",
+        "load_vi_bindings._change_until_end_of_line", "load_vi_bindings._change_current_line",
+        "load_vi_bindings._delete_line", "load_vi_bindings._yank_line", "load_vi_bindings._cut",
+        "load_vi_bindings._paste", "load_vi_bindings._paste_before", "load_vi_bindings._paste_register",
+        "load_vi_bindings._paste_register_before", "load_vi_bindings._yank", "load_vi_bindings._yank_to_register",
+        "load_vi_bindings.create_delete_and_change_operators.delete_or_change_operator"],
+    "src/prompt_toolkit/key_binding/key_processor.py": [
+        "KeyProcessor._fix_vi_cursor_position", "KeyPressEvent.arg"],
+}
 
 TY = {"c": SelectionType.CHARACTERS, "l": SelectionType.LINES, "b": SelectionType.BLOCK}
 TYR = {v: k for k, v in TY.items()}
@@ -186,7 +305,8 @@ def arg_keys(a) -> str:
 
 
 EMACS_KEYS = {"kl": "\x0b", "ld": "\x15", "kw": "\x1bd", "wr": "\x17", "bk": "\x1b\x7f", "y": "\x19",
-              "yp": "\x1by", "f": "\x06", "b": "\x02"}
+              "yp": "\x1by", "f": "\x06", "b": "\x02", "kwc": "\x1b[3;5~"}
+SHIFT_ACT_KEYS = {"cw": "\x17", "mw": "\x1bw", "bs": "\x7f", "cy": "\x19"}
 
 
 def ring_of(ed):
@@ -211,6 +331,22 @@ def emacs_apply(ed, op):
         ed.buffer.cursor_position = op[3]
         feed(ed, keys_of("\x17" if op[4] else "\x1bw"))
         return
+    if cmd == "regt":
+        # a selection of any SelectionType, started through the Buffer API, then C-w / M-w
+        ed.buffer.cursor_position = op[2]
+        ed.buffer.start_selection(selection_type=TY[op[5]])
+        ed.buffer.cursor_position = op[3]
+        feed(ed, keys_of("\x17" if op[4] else "\x1bw"))
+        return
+    if cmd == "shift":
+        # shift-selection: cursor := a, |k| times s-right / s-left, then the action key
+        ed.buffer.cursor_position = op[2]
+        for _ in range(abs(op[3])):
+            feed(ed, keys_of("\x1b[1;2C" if op[3] > 0 else "\x1b[1;2D"))
+        mid = snap(ed)
+        act = op[4]
+        feed(ed, keys_of(SHIFT_ACT_KEYS[act] if act != "ins" else chr(op[5])))
+        return mid
     ks = arg_keys(a)
     if ks:
         # the first character after Escape and every further digit are separate key presses
@@ -223,7 +359,8 @@ def emacs_apply(ed, op):
         feed(ed, keys_of(EMACS_KEYS[cmd]))
 
 
-VI_KEYS = {"x": "x", "X": "X", "s": "s", "D": "D", "C": "C", "dd": "dd", "yy": "yy", "p": "p", "P": "P"}
+VI_KEYS = {"x": "x", "X": "X", "s": "s", "D": "D", "C": "C", "dd": "dd", "yy": "yy", "p": "p", "P": "P",
+           "cc": "cc", "S": "S", "Y": "Y"}
 VIS_KEY = {"c": "v", "l": "V", "b": "\x16"}
 
 
@@ -254,7 +391,7 @@ def vi_apply(ed, op):
         return
     for ch in VI_KEYS[cmd]:
         feed(ed, keys_of(ch))
-    if cmd in ("s", "C"):
+    if cmd in ("s", "C", "cc", "S"):
         feed(ed, keys_of("\x1b"))
         flush(ed)
 
@@ -269,7 +406,8 @@ def vi_op_line(op) -> str:
     if op[1] == "vis":
         ty, a, b, act, reg = op[2:7]
         return f"v N vis {ty} {a} {b} {act} {'N' if reg is None else reg}"
-    return "v " + " ".join(str(x) for x in op)
+    # `S` is the second key of cc, `Y` the second key of yy
+    return "v " + " ".join(str(x) for x in [op[0], {"S": "cc", "Y": "yy"}.get(op[1], op[1])] + list(op[2:]))
 
 
 def vi_init_line(case) -> str:
@@ -316,16 +454,91 @@ def model_lines(case):
         out.append(f"rinit {case['max']}")
         for op in case["ops"]:
             out.append("rrot" if op[0] == "rot" else f"rset {op[1]} {enc_str(op[2])}")
+    elif k == "cut":
+        for cur, orig, ty, vi in case["qs"]:
+            out.append(f"cutp {enc_str(case['text'])} {cur} {orig} {ty} {vi}")
+    elif k == "pyclip":
+        out.append(f"pinit {enc_str(case['sys'])}")
+        for op in case["ops"]:
+            out.append({"set": lambda: f"pset {op[1]} {enc_str(op[2])}", "ext": lambda: f"pext {enc_str(op[1])}",
+                        "rot": lambda: "prot", "get": lambda: "prot"}[op[0]]())
+    elif k == "dyn":
+        out.append("dinit " + " ".join(str(m) for m in case["maxes"]))
+        for op in case["ops"]:
+            out.append({"sel": lambda: f"dsel {'N' if op[1] is None else op[1]}",
+                        "set": lambda: f"dset {op[1]} {enc_str(op[2])}", "rot": lambda: "drot"}[op[0]]())
     else:
         raise ValueError(k)
+    return out
+
+
+def enc_clip(d) -> str:
+    return f"{TYR[d.type]} {enc_str(d.text)}"
+
+
+def run_cut(text, cur, orig, ty, vi):
+    """Document.cut_selection under the given editing mode, then paste_clipboard_data(VI_BEFORE) of
+    the cut data at the cursor cut_selection left: (remaining doc, data, pasted doc | None)"""
+    ed = get_ed()
+    ed.app.editing_mode = EditingMode.VI if vi else EditingMode.EMACS
+    doc = Document(text, cur, SelectionState(original_cursor_position=orig, type=TY[ty]))
+    rem, data = doc.cut_selection()
+    try:
+        back = Document(rem.text, rem.cursor_position).paste_clipboard_data(data, paste_mode=PasteMode.VI_BEFORE)
+    except AssertionError:
+        back = None
+    return rem, data, back
+
+
+def run_pyclip(case):
+    cell = _SystemClipboard()
+    cell.cell = case["sys"]
+    c = pyperclip_clipboard(cell)
+    out = [(cell.cell, c.get_data())]
+    for op in case["ops"]:
+        if op[0] == "set":
+            c.set_data(ClipboardData(op[2], TY[op[1]]))
+        elif op[0] == "ext":
+            cell.copy(op[1])
+        elif op[0] == "rot":
+            c.rotate()
+        out.append((cell.cell, c.get_data()))
+    return out
+
+
+def run_dyn(case):
+    from prompt_toolkit.clipboard import DynamicClipboard
+    clips = [InMemoryClipboard(max_size=m) for m in case["maxes"]]
+    cur = [None]
+    dyn = DynamicClipboard(lambda: None if cur[0] is None or cur[0] >= len(clips) else clips[cur[0]])
+    out = []
+
+    def snap_dyn():
+        return (dyn.get_data(), [[(TYR[d.type], d.text) for d in c._ring] for c in clips])
+
+    out.append(snap_dyn())
+    for op in case["ops"]:
+        if op[0] == "sel":
+            cur[0] = op[1]
+        elif op[0] == "set":
+            # (alternate the two entry points: set_data and the set_text shortcut)
+            if op[1] == "c" and len(op[2]) % 2:
+                dyn.set_text(op[2])
+            else:
+                dyn.set_data(ClipboardData(op[2], TY[op[1]]))
+        else:
+            dyn.rotate()
+        out.append(snap_dyn())
     return out
 
 
 def snap(ed):
     b = ed.buffer
     d = b.document_before_paste
+    sel = b.selection_state
     return {"text": b.text, "cur": b.cursor_position, "ring": ring_of(ed), "nset": ed.session.clipboard.n_set,
-            "dbp": None if d is None else (d.text, d.cursor_position), "regs": regs_of(ed)}
+            "dbp": None if d is None else (d.text, d.cursor_position), "regs": regs_of(ed),
+            "sel": None if sel is None else sel.original_cursor_position}
 
 
 def trace_case(case):
@@ -343,7 +556,7 @@ def trace_case(case):
                 mid = snap(ed)
                 vi_apply(ed, op)
             else:
-                emacs_apply(ed, op)
+                mid = emacs_apply(ed, op)
             tr.append((op, mid, snap(ed)))
         out.append(tr)
     return out
@@ -387,6 +600,17 @@ def impl_lines(case):
                 out.append(f"{enc_str(d.text)} {d.cursor_position}")
             except AssertionError:
                 out.append("err")
+    elif k == "cut":
+        for cur, orig, ty, vi in case["qs"]:
+            rem, data, back = run_cut(case["text"], cur, orig, ty, vi)
+            out.append(f"{enc_str(rem.text)} {rem.cursor_position} {enc_clip(data)} | "
+                       + ("err" if back is None else f"{enc_str(back.text)} {back.cursor_position}"))
+    elif k == "pyclip":
+        for cell, d in run_pyclip(case):
+            out.append(f"{enc_str(cell)} {enc_clip(d)}")
+    elif k == "dyn":
+        for d, rings in run_dyn(case):
+            out.append(f"{enc_clip(d)} {len(rings)}" + "".join(" " + enc_ring(r) for r in rings))
     elif k == "ring":
         c = InMemoryClipboard(max_size=case["max"])
         out.append("0")
@@ -436,6 +660,39 @@ def emacs_single_seqs(n, quick=False):
             seqs.append([["N", "reg", a, b, 1], ["N", "y"]])
             if not quick or a < b:
                 seqs.append([["N", "reg", a, b, 0], ["N", "y"], ["N", "yp"]])
+            # C-w / M-w on a LINES / BLOCK selection (Buffer.start_selection)
+            for ty in "lb":
+                if quick and (a + b) % 2 and a > b:
+                    continue
+                seqs.append([["N", "regt", a, b, 1, ty], ["N", "y"], ["N", "yp"]])
+                if not quick or a <= b:
+                    seqs.append([["N", "regt", a, b, 0, ty], ["N", "y"]])
+            if not quick or a == b:
+                seqs.append([["N", "regt", a, b, 1, "c"], ["N", "y"]])
+    # kill-line / unix-line-discard repeated: every press is an entry of its own
+    for c in ("kl", "ld"):
+        seqs.append([["N", c], ["N", c], ["N", c], ["N", "y"], ["N", "yp"], ["N", "yp"]])
+        seqs.append([["-", "kl"], ["N", c], ["N", "y"]])
+    seqs.append([[0, "kl"], [0, "kl"], ["N", "y"]])
+    # c-delete: the second key of kill-word
+    for a in (["N", "-", 0, 2] if quick else ARGS_SMALL):
+        seqs.append([[a, "kwc"], ["N", "y"], ["N", "yp"]])
+    for c1, c2 in (("kwc", "kwc"), ("kw", "kwc"), ("kwc", "kw")):
+        seqs.append([["N", c1], ["N", c2], ["N", "y"]])
+        seqs.append([["N", c1], ["N", c2], ["N", c2], ["N", "y"]])
+        seqs.append([[n + 2, c1], ["N", c2], ["N", c2], ["N", "y"]])
+    # yank-pop that does not follow a yank; yank with arguments then yank-pop
+    seqs.append([["N", "kl"], ["N", "yp"], ["N", "y"]])
+    seqs.append([["N", "y"], ["N", "ins", 97], ["N", "yp"], ["N", "y"]])
+    seqs.append([[3, "y"], ["N", "yp"], ["N", "yp"], ["N", "yp"], ["N", "yp"]])
+    # shift selection
+    for a in range(n + 1):
+        for k in ([-2, -1, 1, 2] if quick else [-3, -2, -1, 1, 2, 3]):
+            for act in (["cw"], ["mw"], ["bs"], ["cy"], ["ins", 122]):
+                if quick and ((act[0] == "mw" and k != -1) or (act[0] == "ins" and k != 1)
+                              or (act[0] == "cy" and abs(k) == 2)):
+                    continue
+                seqs.append([["N", "shift", a, k] + act, ["N", "y"]])
     return seqs
 
 
@@ -469,9 +726,19 @@ def rand_emacs_op(rng, n):
         return [rng.choice(["N", 2, "-", n]), rng.choice(["f", "b"])]
     if k < 17:
         return [rng.choice(["N", "N", 2, 0]), "ins", ord(rng.choice(["a", " ", ".", "z", "世"]))]
-    if k < 19:
+    if k < 18:
         return ["N", "goto", rng.randrange(0, n + 2)]
-    return ["N", "reg", rng.randrange(0, n + 2), rng.randrange(0, n + 2), rng.randrange(2)]
+    j = rng.randrange(6)
+    if j < 2:
+        return ["N", "reg", rng.randrange(0, n + 2), rng.randrange(0, n + 2), rng.randrange(2)]
+    if j < 3:
+        return ["N", "regt", rng.randrange(0, n + 2), rng.randrange(0, n + 2), rng.randrange(2), rng.choice("clb")]
+    if j < 4:
+        return [a, "kwc"]
+    act = rng.choice([["cw"], ["mw"], ["bs"], ["cy"], ["ins", ord(rng.choice("az "))]])
+    # (at least one shift-arrow press: with none, the op would be "move the cursor through the API, then press
+    #  a key", which can make that key a repeat of the previous one although the cursor moved in between)
+    return ["N", "shift", rng.randrange(0, n + 2), rng.choice([-3, -2, -1, 1, 2, 3, max(n, 1)])] + act
 
 
 def rand_ring(rng, maxsize):
@@ -488,7 +755,7 @@ def cases(tier, rng):
     again = tier in _GENERATED
     _GENERATED.add(tier)
     for c in cases_(tier, rng):
-        if again and ("seqs" in c or (c["kind"] == "paste" and len(c["qs"]) > 8)):
+        if again and ("seqs" in c or (c["kind"] in ("paste", "cut") and len(c["qs"]) > 8) or c.get("exh")):
             continue
         yield c
 
@@ -543,6 +810,10 @@ def cases_(tier, rng):
         yield {"kind": "ring", "max": mx, "ops": ops}
     # ---- paste API
     yield from paste_cases(tier, rng)
+    # ---- Document.cut_selection API (+ paste-back), both editing modes, all selection types
+    yield from cut_cases(tier, rng)
+    # ---- PyperclipClipboard over an abstract system clipboard cell, DynamicClipboard
+    yield from clip_cases(tier, rng)
 
 
 VI_ALPHA = ["a", " ", "\n"]
@@ -559,6 +830,10 @@ def vi_single_seqs(n, quick=False):
     for cmd in ("D", "C"):
         seqs.append([["N", cmd], ["N", "p"]])
         seqs.append([[2, cmd], ["N", "P"]])
+    for cmd in ("cc", "S"):
+        seqs.append([["N", cmd], ["N", "P"]])
+        seqs.append([[2, cmd], ["N", "p"]])
+    seqs.append([[2, "Y"], ["N", "p"]])
     for c in ("N", 2, 3):
         seqs.append([[c, "p"]])
         seqs.append([[c, "P"]])
@@ -581,7 +856,7 @@ def rand_vi_op(rng, n):
     k = rng.randrange(20)
     c = rng.choice(["N", "N", "N", 1, 2, 3, max(n, 1), n + 2, 999999, 1000000])
     if k < 7:
-        return [c, rng.choice(["x", "X", "s", "D", "C", "dd", "yy"])]
+        return [c, rng.choice(["x", "X", "s", "D", "C", "dd", "yy", "cc", "S", "Y"])]
     if k < 10:
         return [rng.choice(["N", "N", 2, 3]), rng.choice(["p", "P"])]
     if k < 12:
@@ -594,6 +869,65 @@ def rand_vi_op(rng, n):
 
 
 PASTE_DATA = ["", "x", "xy", "x\ny", "\n", "x\n", "\nx", "x\ny\nz"]
+CUT_ALPHA = ["a", "b", "\n"]
+
+
+def cut_cases(tier, rng):
+    quick = tier == "quick"
+    maxlen = 4 if quick else 5
+    for n in range(maxlen + 1):
+        for tup in itertools.product(CUT_ALPHA, repeat=n):
+            text = "".join(tup)
+            if quick and n == 4 and text.count("\n") == 0:
+                continue
+            qs = [[cur, orig, ty, vi] for cur in range(n + 1) for orig in range(n + 1) for ty in "clb"
+                  for vi in (1, 0)]
+            yield {"kind": "cut", "text": text, "qs": qs}
+    for _ in range(300 if quick else 6000):
+        n = rng.choice([2, 5, 9, 14, 25])
+        # (short lines, so that blocks cross lines of different lengths)
+        text = "".join(rng.choice(["a", "b", "c", " ", "\n", "\n", "世", "\t"]) for _ in range(n))
+        qs = []
+        for _ in range(8):
+            qs.append([rng.randrange(0, n + 1), rng.randrange(0, n + 1), rng.choice("clb"), rng.randrange(2)])
+        yield {"kind": "cut", "text": text, "qs": qs}
+
+
+def clip_cases(tier, rng):
+    quick = tier == "quick"
+    texts = ["", "a", "a\nb", "b\n", "\n", "ab"]
+    # exhaustive: every (type, text) copied by us, followed by every external text, and back
+    for ty in "clb":
+        for t in texts:
+            for x in texts:
+                yield {"kind": "pyclip", "sys": x, "exh": True,
+                       "ops": [["get"], ["set", ty, t], ["get"], ["ext", x], ["rot"], ["ext", t], ["get"],
+                               ["set", "c", x], ["ext", t]]}
+    for _ in range(150 if quick else 3000):
+        ops = []
+        pool = [rand_text(rng, rng.randrange(0, 4)) for _ in range(3)]
+        for _ in range(rng.randrange(1, 10)):
+            j = rng.randrange(5)
+            if j < 2:
+                ops.append(["set", rng.choice("clb"), rng.choice(pool)])
+            elif j < 4:
+                ops.append(["ext", rng.choice(pool)])
+            else:
+                ops.append(["rot"])
+        yield {"kind": "pyclip", "sys": rng.choice(pool), "ops": ops}
+    for _ in range(150 if quick else 3000):
+        k = rng.randrange(1, 4)
+        maxes = [rng.choice([1, 2, 3, 60]) for _ in range(k)]
+        ops = []
+        for _ in range(rng.randrange(1, 12)):
+            j = rng.randrange(6)
+            if j < 2:
+                ops.append(["sel", rng.choice([None] + list(range(k)))])
+            elif j < 5:
+                ops.append(["set", rng.choice("clb"), rand_text(rng, rng.randrange(0, 3))])
+            else:
+                ops.append(["rot"])
+        yield {"kind": "dyn", "maxes": maxes, "ops": ops}
 
 
 def paste_cases(tier, rng):
@@ -626,7 +960,9 @@ def paste_cases(tier, rng):
 # ------------------------------------------------------------------ oracle
 # The property restated over what the REAL editor did (independent of the Lean model).
 KILL_NAME = {"kl": "kill-line", "ld": "unix-line-discard", "kw": "kill-word", "wr": "unix-word-rubout",
-             "bk": "backward-kill-word"}
+             "bk": "backward-kill-word", "kwc": "kill-word"}
+# keys whose repeated presses accumulate (one Binding object per key: M-d and c-delete are different keys)
+ACCUMULATING = ("kw", "wr", "bk", "kwc")
 
 
 def arg_value(a) -> int:
@@ -658,6 +994,43 @@ def paste_spec(T, c, ty, data, mode, n):
         ln = lines[r + i] + " " * (col - len(lines[r + i]))
         lines[r + i] = ln[:col] + dl * n + ln[col:]
     return "\n".join(lines)
+
+
+def cut_spec(T, cur, orig, ty, vi):
+    """the property's reading of a cut, for the cases it speaks about: (remaining text, clipboard
+    text, paste-back expectation or None).  CHARACTERS: the characters between the two ends (upper
+    end included in Vi mode).  LINES (Vi mode): the whole lines lo..hi.  BLOCK (Vi mode): the cells of
+    rows r1..r2 in columns c1..c2 (rows shorter than c1 have no cell)."""
+    lo, hi = sorted([cur, orig])
+    lines = T.split("\n")
+    if ty == "c":
+        e = hi + 1 if vi else hi
+        return T[:lo] + T[e:], T[lo:e], None
+    r1, r2 = T[:lo].count("\n"), T[:hi].count("\n")
+    if ty == "l":
+        if not vi:
+            return None
+        nl_after = T.find("\n", hi) >= 0
+        rest = lines[:r1] + lines[r2 + 1:]
+        if nl_after:
+            rem = "\n".join(rest)
+            back = T
+        else:
+            # the selection reaches the end of the text: the newline before it stays
+            rem = "".join(l + "\n" for l in lines[:r1])
+            back = T + "\n"
+        return rem, "\n".join(lines[r1:r2 + 1]), back
+    if not vi:
+        return None
+    cA, cB = sorted([lo - (T.rfind("\n", 0, lo) + 1), hi - (T.rfind("\n", 0, hi) + 1)])
+    segs, rest, full = [], list(lines), True
+    for rr in range(r1, r2 + 1):
+        if len(lines[rr]) >= cA:
+            segs.append(lines[rr][cA:cB + 1])
+            rest[rr] = lines[rr][:cA] + lines[rr][cB + 1:]
+        else:
+            full = False
+    return "\n".join(rest), "\n".join(segs), ("corner" if full else None)
 
 
 def minimal(case, ops) -> str:
@@ -699,12 +1072,21 @@ def oracle_emacs_seq(case, tr, bad0):
     prev = None          # (cmd, pushed) of the previous op
     origin = None        # text before the first kill of the current run of accumulating kills
     done = []
-    for op, _, a in tr[1:]:
+    for op, mid, a in tr[1:]:
         arg, cmd = op[0], op[1]
-        T, c, T2, c2 = b["text"], b["cur"], a["text"], a["cur"]
         done.append(op)
+        if cmd == "shift" and mid["sel"] is None and op[4] in ("cw", "cy"):
+            # the shift-arrow presses left no selection: C-w / C-y have their usual meaning
+            # (unix-word-rubout / yank), pressed after other keys (so never a repeat)
+            if (mid["text"], mid["ring"]) != (b["text"], b["ring"]):
+                bad0("emacs.shift-selection " + op[4], "frame", f"moving the cursor changed text or ring: {op}")
+            b = mid
+            cmd, arg = ("wr" if op[4] == "cw" else "y"), "N"
+            if op[3] != 0:
+                prev, origin = None, None
+        T, c, T2, c2 = b["text"], b["cur"], a["text"], a["cur"]
 
-        def bad(site, cond, what):
+        def bad(site, cond, what, op=op, T=T, c=c, T2=T2, c2=c2, b=b, a=a):
             bad0(site, cond, f"{what}: before text={T!r} cur={c} ring={b['ring']} op={op} -> "
                              f"text={T2!r} cur={c2} ring={a['ring']}" + minimal(case, done))
 
@@ -733,10 +1115,10 @@ def oracle_emacs_seq(case, tr, bad0):
                 if k == 1:
                     this = (cmd, True)
                     new = a["ring"][0] if a["ring"] else None
-                    same = prev is not None and prev[0] == cmd and cmd in ("kw", "wr", "bk") and arg == "N"
+                    same = prev is not None and prev[0] == cmd and cmd in ACCUMULATING and arg == "N"
                     consecutive = same and prev[1]
                     if consecutive:
-                        want = b["ring"][0][1] + X if cmd == "kw" else X + b["ring"][0][1]
+                        want = b["ring"][0][1] + X if cmd in ("kw", "kwc") else X + b["ring"][0][1]
                     else:
                         want = X
                         origin = T
@@ -801,10 +1183,53 @@ def oracle_emacs_seq(case, tr, bad0):
                 if op[4] and k == 1:
                     this = (cmd, True)
                     origin = T
+        elif cmd == "regt":
+            ty = op[5]
+            site = ("emacs.kill-region" if op[4] else "emacs.copy-region") + f" ({TY[ty].name})"
+            k = _pushed(b, a, maxsize, bad, site)
+            if k != 1 or a["ring"][0][0] != ty:
+                bad(site, "the cut data was not put on the ring with its type", "region")
+            if not op[4] and T2 != T:
+                bad(site, "frame", "copy-region changed the text")
+            if ty == "c" and k == 1:
+                lo, hi = sorted([min(op[2], len(T)), min(op[3], len(T))])
+                if a["ring"][0] != ("c", T[lo:hi]) or (op[4] and (T2 != T[:lo] + T[hi:] or c2 != lo)):
+                    bad(site, "ring top != region text", "region")
+        elif cmd == "shift":
+            m = mid
+            site = "emacs.shift-selection " + op[4]
+            act = op[4]
+            Tm, cm = m["text"], m["cur"]
+            if Tm != T or m["ring"] != b["ring"]:
+                bad(site, "frame", "moving the cursor changed text or ring")
+            if m["sel"] is not None:
+                lo, hi = sorted([m["sel"], cm])
+                X = Tm[lo:hi]
+                k = _pushed(m, a, maxsize, bad, site)
+                if act in ("cw", "mw"):
+                    if k != 1 or a["ring"][0] != ("c", X):
+                        bad(site, "ring top != selected text", "region")
+                    if T2 != (Tm[:lo] + Tm[hi:] if act == "cw" else Tm):
+                        bad(site, "frame", "removed something else than the selection")
+                    if act == "cw":
+                        this = ("reg", True)
+                        origin = Tm
+                else:
+                    if k != 0:
+                        bad(site, "ring changed", "ring")
+                    top = b["ring"][0][1] if b["ring"] else ""
+                    ins = {"bs": "", "cy": top if not b["ring"] or b["ring"][0][0] == "c" else None,
+                           "ins": chr(op[5]) if act == "ins" else ""}[act]
+                    if ins is not None and T2 != Tm[:lo] + ins + Tm[hi:]:
+                        bad(site, "frame", "the selection was not replaced by exactly the inserted text")
+            else:
+                # no selection: backspace / M-w / a character have their usual meaning, none touches the ring
+                if _pushed(m, a, maxsize, bad, site) != 0:
+                    bad(site, "ring changed", "ring")
         else:
             if a["ring"] != b["ring"]:
                 bad("named_commands." + cmd, "ring changed", "ring")
-        if cmd not in KILL_NAME and not (cmd == "reg" and op[4]):
+        if cmd not in KILL_NAME and not (cmd == "reg" and op[4]) and not (cmd == "shift" and this[1]):
             origin = origin if cmd == "y" else None
         prev = this
         b = a
@@ -856,7 +1281,20 @@ def oracle_vi_seq(case, tr, bad0):
                 bad(site, "removed text not stored", "register")
             if a["regs"] != b["regs"]:
                 bad(site, "named registers changed", "registers")
-        elif cmd in ("dd", "yy"):
+        elif cmd in ("cc", "S"):
+            # the whole line is stored (LINES); what is removed is the line after its leading whitespace
+            line = T[ls:le]
+            ws = line[:len(line) - len(line.lstrip())]
+            k = _pushed(b, a, maxsize, bad, site)
+            if k != 1 or a["ring"][0] != ("l", line):
+                bad(site, "register != the current line", "register")
+            if T2 != T[:ls] + ws + T[le:]:
+                bad(site, "frame", "removed something else than the line after its indentation")
+            if a["regs"] != b["regs"]:
+                bad(site, "named registers changed", "registers")
+        elif cmd in ("dd", "yy", "Y"):
+            if cmd == "Y":
+                cmd = "yy"
             stored = ("l", "\n".join(lines[r:r + n]))
             k = _pushed(b, a, maxsize, bad, site)
             if k != 1 or a["ring"][0] != stored:
@@ -913,7 +1351,8 @@ def oracle_vi_seq(case, tr, bad0):
                     stored = ("l", "\n".join(lines[r1:r2 + 1]))
                     remaining = T[:s1] + T[e2:]
                     must_store = True
-                if T2 != (T if act == "y" else remaining):
+                if T2 != (T if act == "y" else remaining) and not (act == "d" and not valid_reg and T2 == T):
+                    # (`"Ad` with a register name the editor does not have: deleting, or doing nothing)
                     bad(site, "frame", "removed something else than the selection")
                 if valid_reg:
                     if must_store and got is None:
@@ -931,7 +1370,7 @@ def oracle_vi_seq(case, tr, bad0):
                         segs.append(lines[rr][cA:cB + 1])
                         rest[rr] = lines[rr][:cA] + lines[rr][cB + 1:]
                 stored = ("b", "\n".join(segs))
-                if T2 != (T if act == "y" else "\n".join(rest)):
+                if T2 != (T if act == "y" else "\n".join(rest)) and not (act == "d" and not valid_reg and T2 == T):
                     bad(site, "frame", "removed something else than the selected block")
                 must_store = stored[1] != "" or act == "x"
                 if valid_reg:
@@ -979,6 +1418,66 @@ def oracle(case):
             if d.text != paste_spec(T, cur, ty, data, mode, count):
                 bad0("Document.paste_clipboard_data", f"{TY[ty].name} data not inserted unchanged x count",
                      f"text={T!r} cur={cur} data={data!r} mode={mode} count={count} -> {d.text!r}")
+    elif k == "cut":
+        T = case["text"]
+        for cur, orig, ty, vi in case["qs"]:
+            spec = cut_spec(T, cur, orig, ty, vi)
+            if spec is None:
+                continue          # LINES / BLOCK selections in Emacs mode: API only, correspondence only
+            rem, data, back = run_cut(T, cur, orig, ty, vi)
+            site = f"Document.cut_selection ({TY[ty].name})"
+            q = f"text={T!r} cursor={cur} anchor={orig} vi={vi} -> remaining={rem.text!r} cursor={rem.cursor_position} " \
+                f"data=({data.type.name}, {data.text!r})"
+            if data.type != TY[ty]:
+                bad0(site, "type", q)
+            if data.text != spec[1]:
+                bad0(site, "clipboard text != the removed characters", q + f" expected {spec[1]!r}")
+            if rem.text != spec[0]:
+                bad0(site, "frame", q + f" expected remaining {spec[0]!r}")
+            if ty == "l" and (back is None or back.text != spec[2]):
+                bad0(site, "P at the cut point does not restore the text", q + f" pasted back: "
+                     f"{None if back is None else back.text!r} expected {spec[2]!r}")
+            if ty == "b" and spec[2] == "corner":
+                # paste at the top-left corner of the block (where the cut started)
+                lo = min(cur, orig)
+                hi = max(cur, orig)
+                cA = min(lo - (T.rfind("\n", 0, lo) + 1), hi - (T.rfind("\n", 0, hi) + 1))
+                corner = (T.rfind("\n", 0, lo) + 1) + cA
+                d2 = Document(rem.text, corner).paste_clipboard_data(data, paste_mode=PasteMode.VI_BEFORE)
+                if d2.text != T:
+                    bad0(site, "P at the corner of the block does not restore the text",
+                         q + f" pasted back at {corner}: {d2.text!r}")
+    elif k == "pyclip":
+        last = None
+        tr = run_pyclip(case)
+        for i, op in enumerate(case["ops"]):
+            cell, d = tr[i + 1]
+            got = (TYR[d.type], d.text)
+            if op[0] == "set":
+                last = (op[1], op[2])
+                if got != last:
+                    bad0("PyperclipClipboard.set_data", "get_data right after set_data returns other data",
+                         f"ops={case['ops'][:i + 1]} got={got}")
+            if d.text != cell:
+                bad0("PyperclipClipboard.get_data", "text != system clipboard", f"ops={case['ops'][:i + 1]} got={got}")
+            if last is not None and last[1] == cell and got != last:
+                bad0("PyperclipClipboard.get_data", "type of our own copy lost", f"ops={case['ops'][:i + 1]} got={got}")
+    elif k == "dyn":
+        shadow = [[] for _ in case["maxes"]]
+        cur = None
+        tr = run_dyn(case)
+        for i, op in enumerate(case["ops"]):
+            if op[0] == "sel":
+                cur = op[1]
+            elif op[0] == "set" and cur is not None:
+                shadow[cur] = ([(op[1], op[2])] + shadow[cur])[:case["maxes"][cur]]
+            elif op[0] == "rot" and cur is not None:
+                shadow[cur] = shadow[cur][1:] + shadow[cur][:1]
+            d, rings = tr[i + 1]
+            want = ("c", "") if cur is None or not shadow[cur] else shadow[cur][0]
+            if rings != shadow or (TYR[d.type], d.text) != want:
+                bad0("DynamicClipboard." + op[0], "not forwarded to the current clipboard",
+                     f"ops={case['ops'][:i + 1]} rings={rings} expected={shadow} got=({d.type.name}, {d.text!r})")
     elif k == "ring":
         c = InMemoryClipboard(max_size=case["max"])
         shadow = []
@@ -1008,7 +1507,7 @@ def sample_view(case):
 def nontrivial(case):
     if case["kind"] in ("emacs", "vi"):
         return len(case["text"]) > 0 or len(seqs_of(case)[0]) >= 3
-    if case["kind"] == "paste":
+    if case["kind"] in ("paste", "cut"):
         return len(case["text"]) > 0
     return len(case["ops"]) >= 2
 
